@@ -7,8 +7,8 @@
   params, `{param k}…{/param}` content params and `data="all"` / `data="$e"` (soy.$$augmentMap) — against a CALLEE
   ORACLE: `G name data`, what the generated function `name` returns, related by the hypothesis `CallRel` to the
   `call` of the reference context `R : RefCtx` (registry, entry data, `call` as in Spec/Eval) —, `{msg}` WITHOUT a
-  message bundle and without `{plural}` (the generator then writes the parts one after the other: raw text, HTML
-  tags, print and call placeholders; hypothesis `o.messages = none` of the generator theorems) — the expressions of
+  message bundle (the generator then writes the parts one after the other: raw text, HTML
+  tags, print and call placeholders, and for a `{plural}` a `switch` on its value; hypothesis `o.messages = none` of the generator theorems) — the expressions of
   Props/C04c inside them.
 
   1. `toCmds` translates the commands, in the generator scope they are met in, to the statement AST of
@@ -32,9 +32,12 @@ import SoyVerif.Lemmas.JsonValue
 
 namespace SoyVerif.Props.C04d
 open SoyVerif SoyVerif.Model SoyVerif.Model.JsGen SoyVerif.Spec.JsSemRef SoyVerif.Spec.JsStmt
-open SoyVerif.Props.C04c (toAst render RunsSc Same walkExpr_renders toJsV EnvRel)
+open SoyVerif.Props.C04c (toAst render RunsSc Same walkExpr_renders toJsV EnvRel Globals GlobalsAre IjRel GlobRel)
 
-variable {ent : Spec.Eval.Binds}
+set_option linter.unusedSectionVars false
+
+section Dev
+variable [Globals] {ent : Spec.Eval.Binds}
 
 
 /-! ## 1. translation -/
@@ -203,6 +206,34 @@ def phJoin (r1 : Option (JsStmts × Scope)) (rest : Scope → Option (JsStmts ×
     | some r2 => some (r1.1.append r2.1, r2.2)
     | none => none
 
+/-- one `{case n}` of a `{plural}` from the translations of its parts.  The generator opens NO frame for the body of a
+    case: the translation takes only bodies that leave the frames as they found them (print / call placeholders do) -/
+def pcaseJoin (sc : Scope) (v : Int) (rb : Option (JsStmts × Scope)) (rest : Scope → Option (JsPlural × Scope)) :
+    Option (JsPlural × Scope) :=
+  match rb with
+  | none => none
+  | some rb =>
+    if rb.2.stack = sc.stack then
+      (match rest rb.2 with
+        | some rr => some (.cons v rb.1 rr.1, rr.2)
+        | none => none)
+    else none
+
+/-- a `{plural}` part of a message (no bundle): the switch on its value, then the rest of the message -/
+def pluralJoin (sc : Scope) (j : Option JsExpr) (rc : Option (JsPlural × Scope)) (dflt rest : Scope → Option (JsStmts × Scope)) :
+    Option (JsStmts × Scope) :=
+  match j, rc with
+  | some j, some rc =>
+    (match dflt rc.2 with
+      | some rd =>
+        if rd.2.stack = sc.stack then
+          (match rest rd.2 with
+            | some rr => some (.cons (.pluralS j rc.1 rd.1) rr.1, rr.2)
+            | none => none)
+        else none
+      | none => none)
+  | _, _ => none
+
 section
 variable (ae : Autoescape)
 
@@ -242,6 +273,15 @@ mutual
     | buf, .call _ name allData data params, sc =>
       -- `{call name …}`: the content params are rendered into buffers of their own first
       callJoin buf name (callBase sc allData data) (toParams params sc)
+    | buf, .css _ e suffix, sc =>
+      -- `{css $e, name}`: the value of `e`, a hyphen, the name — unescaped; `{css name}`: the name
+      (match e with
+        | none => some (.one (.appendLit buf suffix), sc)
+        | some e =>
+          (match toAst sc e with
+            | some j => some (.cons (.appendCss buf j) (.one (.appendLit buf suffix)), sc)
+            | none => none))
+    | _, .debugger _, sc => some (.one .debuggerS, sc)
     | buf, .msg _ _ _ _ _ body, sc =>
       -- `{msg}` WITHOUT a message bundle: the parts one after the other (no goog.getMsg), in a frame of their own
       msgJoin (toParts buf body sc.push)
@@ -251,7 +291,12 @@ mutual
     | _, .nil, sc => some (.nil, sc)
     | buf, .text _ t r, sc => phJoin (some (.one (.appendLit buf t), sc)) (toParts buf r)
     | buf, .ph _ _ body r, sc => phJoin (toPh buf body sc) (toParts buf r)
-    | _, .plural .., _ => none
+    | buf, .plural _ _ value cases _ dflt r, sc =>
+      pluralJoin sc (toAst sc value) (toPCases buf cases sc) (toParts buf dflt) (toParts buf r)
+  /-- the `{case n}` clauses of a plural -/
+  def toPCases : Bytes → PluralCases → Scope → Option (JsPlural × Scope)
+    | _, .nil, sc => some (.nil, sc)
+    | buf, .cons _ v _ body rest, sc => pcaseJoin sc v (toParts buf body sc) (toPCases buf rest)
   def toPh : Bytes → MsgPhBody → Scope → Option (JsStmts × Scope)
     | buf, .htmlTag _ t, sc => some (.one (.appendLit buf t), sc)
     | buf, .cmd c, sc => toCmd buf c sc
@@ -363,6 +408,12 @@ mutual
     | .call b callee base params =>
       [.fixed (spaces ind), .ident b, .fixed b!" += ", (if es6 then .es6name callee else .qname callee), .fixed b!"("] ++
         dataPieces base params ++ [.fixed b!", opt_sb, opt_ijData);", .fixed [10]]
+    | .appendCss b e => [.fixed (spaces ind), .ident b, .fixed b!" += "] ++ render e ++ [.fixed b!" + '-';", .fixed [10]]
+    | .debuggerS => [.fixed (spaces ind), .fixed b!"debugger;", .fixed [10]]
+    | .pluralS e cases dflt =>
+      [.fixed (spaces ind), .fixed b!"switch ("] ++ render e ++ [.fixed b!") {", .fixed [10]] ++ renderPlural es6 (ind + 1) cases ++
+        [.fixed (spaces (ind + 1)), .fixed b!"default:", .fixed [10]] ++ renderStmts es6 (ind + 1 + 1) dflt ++
+        [.fixed (spaces ind), .fixed b!"}", .fixed [10]]
     | .ifPos lim body els =>
       [.fixed (spaces ind), .fixed b!"if (", .ident lim, .fixed b!" > 0) {", .fixed [10]] ++ renderStmts es6 (ind + 1) body ++
         [.fixed (spaces ind), .fixed b!"} else {", .fixed [10]] ++ renderStmts es6 (ind + 1) els ++
@@ -378,6 +429,11 @@ mutual
     | .cons labels body rest =>
       labels.flatMap (fun j => [.fixed (spaces ind), .fixed b!"case "] ++ render j ++ [.fixed b!":", .fixed [10]]) ++
         renderStmts es6 (ind + 1) body ++ [.fixed (spaces (ind + 1)), .fixed b!"break;", .fixed [10]] ++ renderCases es6 ind rest
+  def renderPlural (es6 : Bool) (ind : Nat) : JsPlural → List Piece
+    | .nil => []
+    | .cons v body rest =>
+      [.fixed (spaces ind), .fixed b!"case ", .int v, .fixed b!":", .fixed [10]] ++ renderStmts es6 (ind + 1) body ++
+        [.fixed (spaces (ind + 1)), .fixed b!"break;", .fixed [10]] ++ renderPlural es6 ind rest
   def renderConds (es6 : Bool) (ind : Nat) : JsConds → Bool → List Piece
     | .nil, _ => []
     | .els body, first =>
@@ -494,7 +550,7 @@ end
 /-! ### one lemma per node kind (the recursive calls are hypotheses) -/
 
 section
-variable (sk : List Bytes → List Bytes) (o : Options)
+variable (sk : List Bytes → List Bytes) (o : Options) [GlobalsAre o]
 variable {ind : Nat} {buf : Bytes} {ae : Autoescape} {sc : Scope}
 
 theorem Runs.getSt {Q : St → Prop} {k : St → M Unit} {ps : List Piece}
@@ -772,7 +828,7 @@ theorem caseJoin_some {sc : Scope} {values : List Expr} {rb : Option (JsStmts ×
           exact ⟨js, rr, rfl, rfl, h.symm⟩
 
 section
-variable (sk : List Bytes → List Bytes) (o : Options)
+variable (sk : List Bytes → List Bytes) (o : Options) [GlobalsAre o]
 variable {ind : Nat} {buf : Bytes} {ae : Autoescape} {sc : Scope}
 
 theorem body_runs (p : Nat) (cmds : CmdList) (st : JsStmts) (sc' : Scope)
@@ -958,7 +1014,7 @@ theorem RunsV.cast {α : Type} {P Q : St → Prop} {m : M α} {a a' : α} {ps qs
     (ea : a = a') (e : ps = qs) : RunsV P Q m a' qs := ea ▸ e ▸ h
 
 section
-variable (sk : List Bytes → List Bytes) (o : Options)
+variable (sk : List Bytes → List Bytes) (o : Options) [GlobalsAre o]
 variable {ind : Nat} {buf : Bytes} {ae : Autoescape} {sc : Scope}
 
 theorem RunsV.getBuf {β : Type} {Q : St → Prop} {k : Bytes → M β} {b : β} {ps : List Piece}
@@ -1155,7 +1211,7 @@ theorem phJoin_some {r1 : Option (JsStmts × Scope)} {rest : Scope → Option (J
       exact ⟨a, b, rfl, hb, h.symm⟩
 
 section
-variable (sk : List Bytes → List Bytes) (o : Options)
+variable (sk : List Bytes → List Bytes) (o : Options) [GlobalsAre o]
 variable {ind : Nat} {buf : Bytes} {ae : Autoescape} {sc : Scope}
 
 theorem rawPart_runs (t : Bytes) :
@@ -1211,10 +1267,123 @@ theorem ph_cmd_runs (c : Cmd) (r : JsStmts × Scope)
 
 end
 
+/-! ### css, debugger -/
+
+section
+variable (sk : List Bytes → List Bytes) (o : Options) [GlobalsAre o]
+variable {ind : Nat} {buf : Bytes} {ae : Autoescape} {sc : Scope}
+
+theorem css_none_runs (p : Nat) (suffix : Bytes) :
+    Runs (At ind buf ae sc) (At ind buf ae sc) (walkCmd sk o (.css p none suffix))
+      (renderStmts (isEs6 o) ind (.one (.appendLit buf suffix))) := by
+  sunfold walkCmd
+  unfold writeRawText
+  exact (Runs.seq Runs.atOther (Runs.seq Runs.pure (Runs.seq Runs.indentP (Runs.getBuf
+    (Runs.seq (Runs.emit _) (Runs.seq (Runs.fx _) (Runs.seq (Runs.emit _) (Runs.fx _)))))))).cast
+    (by simp [renderStmts_one, renderStmt])
+
+theorem css_some_runs (p : Nat) (e : Expr) (suffix : Bytes) (j : JsExpr) (hj : toAst sc e = some j) :
+    Runs (At ind buf ae sc) (At ind buf ae sc) (walkCmd sk o (.css p (some e) suffix))
+      (renderStmts (isEs6 o) ind (.cons (.appendCss buf j) (.one (.appendLit buf suffix)))) := by
+  sunfold walkCmd
+  unfold writeRawText
+  have hv := walkExpr_renders sk o sc e j hj
+  exact (Runs.seq Runs.atOther (Runs.seq (Runs.seq Runs.indentP (Runs.getBuf (Runs.seq (Runs.emit _) (Runs.seq (Runs.fx _)
+    (Runs.seq (Runs.expr hv) (Runs.seq (Runs.fx _) Runs.nl)))))) (Runs.seq Runs.indentP (Runs.getBuf
+    (Runs.seq (Runs.emit _) (Runs.seq (Runs.fx _) (Runs.seq (Runs.emit _) (Runs.fx _)))))))).cast
+    (by simp [renderStmts, renderStmt, JsStmts.one])
+
+theorem debugger_runs (p : Nat) :
+    Runs (At ind buf ae sc) (At ind buf ae sc) (walkCmd sk o (.debugger p)) (renderStmts (isEs6 o) ind (.one .debuggerS)) := by
+  sunfold walkCmd
+  exact (Runs.seq Runs.atOther (Runs.seq Runs.indentP (Runs.seq (Runs.fx _) Runs.nl))).cast
+    (by simp [renderStmts_one, renderStmt])
+
+end
+
+/-! ### plural (no bundle) -/
+
+theorem pcaseJoin_some {sc : Scope} {v : Int} {rb : Option (JsStmts × Scope)} {rest : Scope → Option (JsPlural × Scope)}
+    {r : JsPlural × Scope} (h : pcaseJoin sc v rb rest = some r) :
+    ∃ rb' rr, rb = some rb' ∧ rb'.2.stack = sc.stack ∧ rest rb'.2 = some rr ∧ r = (.cons v rb'.1 rr.1, rr.2) := by
+  cases rb with
+  | none => simp [pcaseJoin] at h
+  | some rb' =>
+    simp only [pcaseJoin] at h
+    split at h
+    · rename_i hst
+      cases hr : rest rb'.2 with
+      | none => simp [hr] at h
+      | some rr =>
+        simp only [hr, Option.some.injEq] at h
+        exact ⟨rb', rr, rfl, hst, hr, h.symm⟩
+    · cases h
+
+theorem pluralJoin_some {sc : Scope} {j : Option JsExpr} {rc : Option (JsPlural × Scope)}
+    {dflt rest : Scope → Option (JsStmts × Scope)} {r : JsStmts × Scope} (h : pluralJoin sc j rc dflt rest = some r) :
+    ∃ j' rc' rd rr, j = some j' ∧ rc = some rc' ∧ dflt rc'.2 = some rd ∧ rd.2.stack = sc.stack ∧ rest rd.2 = some rr ∧
+      r = (.cons (.pluralS j' rc'.1 rd.1) rr.1, rr.2) := by
+  cases j with
+  | none => simp [pluralJoin] at h
+  | some j' =>
+    cases rc with
+    | none => simp [pluralJoin] at h
+    | some rc' =>
+      simp only [pluralJoin] at h
+      cases hd : dflt rc'.2 with
+      | none => simp [hd] at h
+      | some rd =>
+        simp only [hd] at h
+        split at h
+        · rename_i hst
+          cases hr : rest rd.2 with
+          | none => simp [hr] at h
+          | some rr =>
+            simp only [hr, Option.some.injEq] at h
+            exact ⟨j', rc', rd, rr, rfl, rfl, hd, hst, hr, h.symm⟩
+        · cases h
+
+section
+variable (sk : List Bytes → List Bytes) (o : Options) [GlobalsAre o]
+variable {ind : Nat} {buf : Bytes} {ae : Autoescape} {sc : Scope}
+
+theorem pcases_nil_runs :
+    Runs (At ind buf ae sc) (At ind buf ae sc) (walkPluralCases sk o .nil) (renderPlural (isEs6 o) ind .nil) := by
+  sunfold walkPluralCases
+  exact Runs.pure.cast (by simp [renderPlural])
+
+theorem pcases_cons_runs (p : Nat) (v : Int) (bp : Nat) (body : MsgParts) (rest : PluralCases) (rb : JsStmts × Scope)
+    (rr : JsPlural × Scope)
+    (hb : Runs (At (ind + 1) buf ae sc) (At (ind + 1) buf ae rb.2) (visitMsgNode sk o body) (renderStmts (isEs6 o) (ind + 1) rb.1))
+    (hr : Runs (At ind buf ae rb.2) (At ind buf ae rr.2) (walkPluralCases sk o rest) (renderPlural (isEs6 o) ind rr.1)) :
+    Runs (At ind buf ae sc) (At ind buf ae rr.2) (walkPluralCases sk o (.cons p v bp body rest))
+      (renderPlural (isEs6 o) ind (.cons v rb.1 rr.1)) := by
+  sunfold walkPluralCases
+  exact (Runs.seq Runs.indentP (Runs.seq (Runs.fx _) (Runs.seq (Runs.emit _) (Runs.seq (Runs.fx _) (Runs.seq Runs.nl
+    (Runs.seq Runs.incIndent (Runs.seq hb (Runs.seq Runs.indentP (Runs.seq (Runs.fx _) (Runs.seq Runs.nl
+    (Runs.seq Runs.decIndent hr))))))))))).cast (by simp [renderPlural])
+
+theorem parts_plural_runs (p : Nat) (vn : Bytes) (value : Expr) (cases : PluralCases) (dp : Nat) (dflt r : MsgParts) (j : JsExpr)
+    (rc : JsPlural × Scope) (rd rr : JsStmts × Scope) (hj : toAst sc value = some j)
+    (hc : Runs (At (ind + 1) buf ae sc) (At (ind + 1) buf ae rc.2) (walkPluralCases sk o cases) (renderPlural (isEs6 o) (ind + 1) rc.1))
+    (hd : Runs (At (ind + 1 + 1) buf ae rc.2) (At (ind + 1 + 1) buf ae rd.2) (visitMsgNode sk o dflt)
+      (renderStmts (isEs6 o) (ind + 1 + 1) rd.1))
+    (hr : Runs (At ind buf ae rd.2) (At ind buf ae rr.2) (visitMsgNode sk o r) (renderStmts (isEs6 o) ind rr.1)) :
+    Runs (At ind buf ae sc) (At ind buf ae rr.2) (visitMsgNode sk o (.plural p vn value cases dp dflt r))
+      (renderStmts (isEs6 o) ind (.cons (.pluralS j rc.1 rd.1) rr.1)) := by
+  sunfold visitMsgNode
+  have hv := walkExpr_renders sk o sc value j hj
+  exact (Runs.seq Runs.indentP (Runs.seq (Runs.fx _) (Runs.seq (Runs.expr hv) (Runs.seq (Runs.fx _) (Runs.seq Runs.nl
+    (Runs.seq Runs.incIndent (Runs.seq hc (Runs.seq Runs.indentP (Runs.seq (Runs.fx _) (Runs.seq Runs.nl
+    (Runs.seq Runs.incIndent (Runs.seq hd (Runs.seq Runs.decIndent (Runs.seq Runs.decIndent (Runs.seq Runs.indentP
+    (Runs.seq (Runs.fx _) (Runs.seq Runs.nl hr))))))))))))))))).cast (by simp [renderStmts, renderStmt])
+
+end
+
 /-! ### the recursion -/
 
 section
-variable (sk : List Bytes → List Bytes) (o : Options) (ae : Autoescape)
+variable (sk : List Bytes → List Bytes) (o : Options) [GlobalsAre o] (ae : Autoescape)
 -- `{msg}` is translated as the generator writes it WITHOUT a message bundle
 variable (ho : o.messages = none)
 include ho
@@ -1258,8 +1427,19 @@ mutual
       unfold toCmd at h
       obtain ⟨rb, hrb, rfl⟩ := msgJoin_some h
       exact msg_runs sk o ho p id m d bp body rb (visitMsgNode_renders body buf _ rb hrb ind)
-    | .css .., _, _, _, h, _ => by simp [toCmd] at h
-    | .debugger .., _, _, _, h, _ => by simp [toCmd] at h
+    | .css p none suffix, buf, sc, r, h, ind => by
+      simp only [toCmd, Option.some.injEq] at h; subst h
+      exact css_none_runs sk o p suffix
+    | .css p (some e) suffix, buf, sc, r, h, ind => by
+      simp only [toCmd] at h
+      split at h
+      · rename_i j hj
+        simp only [Option.some.injEq] at h; subst h
+        exact css_some_runs sk o p e suffix j hj
+      · cases h
+    | .debugger p, buf, sc, r, h, ind => by
+      simp only [toCmd, Option.some.injEq] at h; subst h
+      exact debugger_runs sk o p
     | .log .., _, _, _, h, _ => by simp [toCmd] at h
     | .forc p v list body none, buf, sc, r, h, ind => by
       unfold toCmd at h
@@ -1313,7 +1493,22 @@ mutual
       obtain ⟨a, b, ha, hb, rfl⟩ := phJoin_some h
       exact parts_ph_runs sk o p name body rest a b (walkPhBody_renders body buf sc a ha ind)
         (visitMsgNode_renders rest buf a.2 b hb ind)
-    | .plural .., _, _, _, h, _ => by simp [toParts] at h
+    | .plural p vn value cases dp dflt rest, buf, sc, r, h, ind => by
+      unfold toParts at h
+      obtain ⟨j, rc, rd, rr, hj, hrc, hrd, _, hrr, rfl⟩ := pluralJoin_some h
+      exact parts_plural_runs sk o p vn value cases dp dflt rest j rc rd rr hj (walkPluralCases_renders cases buf sc rc hrc (ind + 1))
+        (visitMsgNode_renders dflt buf rc.2 rd hrd (ind + 1 + 1)) (visitMsgNode_renders rest buf rd.2 rr hrr ind)
+  theorem walkPluralCases_renders : ∀ (cs : PluralCases) (buf : Bytes) (sc : Scope) (r : JsPlural × Scope),
+      toPCases ae buf cs sc = some r →
+      ∀ ind, Runs (At ind buf ae sc) (At ind buf ae r.2) (walkPluralCases sk o cs) (renderPlural (isEs6 o) ind r.1)
+    | .nil, buf, sc, r, h, ind => by
+      simp only [toPCases, Option.some.injEq] at h; subst h
+      exact pcases_nil_runs sk o
+    | .cons p v bp body rest, buf, sc, r, h, ind => by
+      unfold toPCases at h
+      obtain ⟨rb, rr, hrb, _, hrr, rfl⟩ := pcaseJoin_some h
+      exact pcases_cons_runs sk o p v bp body rest rb rr (visitMsgNode_renders body buf sc rb hrb (ind + 1))
+        (walkPluralCases_renders rest buf rb.2 rr hrr ind)
   theorem walkPhBody_renders : ∀ (b : MsgPhBody) (buf : Bytes) (sc : Scope) (r : JsStmts × Scope), toPh ae buf b sc = some r →
       ∀ ind, Runs (At ind buf ae sc) (At ind buf ae r.2) (walkPhBody sk o b) (renderStmts (isEs6 o) ind r.1)
     | .htmlTag p t, buf, sc, r, h, ind => by
@@ -1496,6 +1691,11 @@ mutual
         (refBase R allData data env).bind fun b =>
           (refParams params env).bind fun ps =>
             (R.call callee { entry := ps ++ b, ij := env.ij, globals := env.globals }).bind fun out => .val (out, env)
+    | .css _ e suffix, env =>
+      (match e with
+        | none => .val (suffix, env)
+        | some e => (Spec.Eval.eval env e).bind fun v => (Spec.Eval.showVal v).bind fun s => .val (s ++ [45] ++ suffix, env))
+    | .debugger _, env => .val ([], env)
     | .msg _ _ _ _ _ body, env =>
       -- no message bundle: the parts in order; the body is a scope of its own
       (refParts body env).bind fun r => .val (r.1, env)
@@ -1506,7 +1706,18 @@ mutual
     | .text _ t rest, env => (refParts rest env).bind fun r => .val (t ++ r.1, r.2)
     | .ph _ _ body rest, env =>
       (refPh body env).bind fun r1 => (refParts rest r1.2).bind fun r2 => .val (r1.1 ++ r2.1, r2.2)
-    | .plural .., _ => .unspec
+    | .plural _ _ value cases _ dflt rest, env =>
+      -- Spec/Eval.renderParts: the first `{case n}` with the value, else `{default}`
+      (Spec.Eval.eval env value).bind fun v =>
+        match v with
+        | .int i =>
+          (match refPlural cases i env with
+            | some r => r
+            | none => refParts dflt env).bind fun r1 => (refParts rest r1.2).bind fun r2 => .val (r1.1 ++ r2.1, r2.2)
+        | _ => .error
+  def refPlural : PluralCases → Int → SEnv → Option Spec.Eval.ROut
+    | .nil, _, _ => none
+    | .cons _ v _ body rest, i, env => if i == v then some (refParts body env) else refPlural rest i env
   def refPh : MsgPhBody → SEnv → Spec.Eval.ROut
     | .htmlTag _ t, env => .val (t, env)
     | .cmd c, env => refCmd c env
@@ -1881,8 +2092,18 @@ mutual
       have hst : rb.2.pop.stack = sc.stack := by simp only [Scope.pop]; rw [b2]; rfl
       have hn : sc.n ≤ rb.2.pop.n := b3
       exact ⟨scOk_of_stack hs hst hn, by rw [hst], hn⟩
-    | .css .., _, _, _, h, _ => by simp [toCmd] at h
-    | .debugger .., _, _, _, h, _ => by simp [toCmd] at h
+    | .css p none suffix, buf, sc, r, h, hs => by
+      simp only [toCmd, Option.some.injEq] at h; subst h
+      exact ⟨hs, rfl, Nat.le_refl _⟩
+    | .css p (some e) suffix, buf, sc, r, h, hs => by
+      simp only [toCmd] at h
+      split at h
+      · simp only [Option.some.injEq] at h; subst h
+        exact ⟨hs, rfl, Nat.le_refl _⟩
+      · cases h
+    | .debugger p, buf, sc, r, h, hs => by
+      simp only [toCmd, Option.some.injEq] at h; subst h
+      exact ⟨hs, rfl, Nat.le_refl _⟩
     | .log .., _, _, _, h, _ => by simp [toCmd] at h
     | .forc p v list body none, buf, sc, r, h, hs => by
       unfold toCmd at h
@@ -1972,7 +2193,24 @@ mutual
       obtain ⟨a1, a2, a3⟩ := toPh_scope body buf sc a ha hs
       obtain ⟨b1, b2, b3⟩ := toParts_scope rest buf a.2 b hb a1
       exact ⟨b1, b2.trans a2, Nat.le_trans a3 b3⟩
-    | .plural .., _, _, _, h, _ => by simp [toParts] at h
+    | .plural p vn value cases dp dflt rest, buf, sc, r, h, hs => by
+      unfold toParts at h
+      obtain ⟨j, rc, rd, rr, _, hrc, hrd, hst, hrr, rfl⟩ := pluralJoin_some h
+      obtain ⟨c1, c2, c3⟩ := toPCases_scope cases buf sc rc hrc hs
+      obtain ⟨d1, _, d3⟩ := toParts_scope dflt buf rc.2 rd hrd c1
+      obtain ⟨e1, e2, e3⟩ := toParts_scope rest buf rd.2 rr hrr d1
+      exact ⟨e1, by rw [e2, hst], Nat.le_trans c3 (Nat.le_trans d3 e3)⟩
+  theorem toPCases_scope : ∀ (cs : PluralCases) (buf : Bytes) (sc : Scope) (r : JsPlural × Scope), toPCases ae buf cs sc = some r →
+      ScOk sc → ScOk r.2 ∧ r.2.stack = sc.stack ∧ sc.n ≤ r.2.n
+    | .nil, buf, sc, r, h, hs => by
+      simp only [toPCases, Option.some.injEq] at h; subst h
+      exact ⟨hs, rfl, Nat.le_refl _⟩
+    | .cons p v bp body rest, buf, sc, r, h, hs => by
+      unfold toPCases at h
+      obtain ⟨rb, rr, hrb, hst, hrr, rfl⟩ := pcaseJoin_some h
+      obtain ⟨a1, _, a3⟩ := toParts_scope body buf sc rb hrb hs
+      obtain ⟨b1, b2, b3⟩ := toPCases_scope rest buf rb.2 rr hrr a1
+      exact ⟨b1, b2.trans hst, Nat.le_trans a3 b3⟩
   theorem toPh_scope : ∀ (b : MsgPhBody) (buf : Bytes) (sc : Scope) (r : JsStmts × Scope), toPh ae buf b sc = some r → ScOk sc →
       ScOk r.2 ∧ r.2.stack.tail = sc.stack.tail ∧ sc.n ≤ r.2.n
     | .htmlTag p t, buf, sc, r, h, hs => by
@@ -2140,8 +2378,15 @@ mutual
       obtain ⟨_, b2, _⟩ := toParts_scope ae body buf sc.push rb hrb (scOk_push hs.2)
       have hst : rb.2.pop.stack = sc.stack := by simp only [Scope.pop]; rw [b2]; rfl
       exact goodBuf_of_stack hg hst hsc.2.2
-    | .css .., _, _, _, h, _, _, _ => by simp [toCmd] at h
-    | .debugger .., _, _, _, h, _, _, _ => by simp [toCmd] at h
+    | .css p none suffix, buf, sc, r, h, hs, g, hg => by
+      simp only [toCmd, Option.some.injEq] at h; subst h; exact hg
+    | .css p (some e) suffix, buf, sc, r, h, hs, g, hg => by
+      simp only [toCmd] at h
+      split at h
+      · simp only [Option.some.injEq] at h; subst h; exact hg
+      · cases h
+    | .debugger p, buf, sc, r, h, hs, g, hg => by
+      simp only [toCmd, Option.some.injEq] at h; subst h; exact hg
     | .log .., _, _, _, h, _, _, _ => by simp [toCmd] at h
     | .call p name allData data params, buf, sc, r, h, hs, g, hg => by
       unfold toCmd at h
@@ -2272,7 +2517,8 @@ theorem loopRel_keep {buf : Bytes} {sc sc' : Scope} {env : SEnv} {jenv jenv' : J
 theorem envRel_keep {buf : Bytes} {sc sc' : Scope} {env : SEnv} {jenv jenv' : JEnv} {lo : Nat}
     (hrel : EnvRel ent sc env jenv) (hk : Keeps buf lo jenv jenv') (hb : Bounded sc) (hlo : sc.n ≤ lo)
     (hfr : Fresh sc buf) (hst : sc'.stack = sc.stack) : EnvRel ent sc' env jenv' := by
-  refine ⟨?_, loopRel_keep hrel.2.1 hk hb hlo hfr hst, by rw [hk.1]; exact hrel.2.2⟩
+  refine ⟨?_, loopRel_keep hrel.2.1 hk hb hlo hfr hst, by rw [hk.1]; exact hrel.2.2.1, by rw [hk.2.1]; exact hrel.2.2.2.1,
+    hrel.2.2.2.2⟩
   intro k hkij hkd
   have hl : sc'.lookup k = sc.lookup k := by simp [Scope.lookup, hst]
   rw [hl]
@@ -2504,7 +2750,7 @@ theorem sres_bind_ok {r : SRes} {k : JEnv → SRes} {e : JEnv} (h : r.bind k = .
   | unspec => cases h
 
 section
-variable (F : Bytes → List Expr → JVal → JOut) (G : Bytes → JVal → JOut) (fuel : Nat)
+variable (F : Bytes → List Expr → JVal → JOut) (G : Callee) (fuel : Nat)
 
 theorem execStmts_append : ∀ (a b : JsStmts) (env : JEnv),
     execStmts F G fuel (a.append b) env = (execStmts F G fuel a env).bind (execStmts F G fuel b)
@@ -2574,7 +2820,7 @@ end
 /-! ### the induction: one lemma per node kind -/
 
 section
-variable (F : Bytes → List Expr → JVal → JOut) (G : Bytes → JVal → JOut) (R : RefCtx) (ae : Autoescape) (buf : Bytes)
+variable (F : Bytes → List Expr → JVal → JOut) (G : Callee) (R : RefCtx) (ae : Autoescape) (buf : Bytes)
 
 def CmdOk (c : Cmd) : Prop :=
   ∀ (fuel : Nat) (sc : Scope) (r : JsStmts × Scope) (env : SEnv) (jenv jenv' : JEnv) (out : Bytes),
@@ -3672,6 +3918,48 @@ theorem forc_some_ok (p : Nat) (v : Bytes) (list : Expr) (body ie : Block) (ihb 
 
 /-! ### a content block: the body writes to a buffer of its own -/
 
+/-! ### css, debugger -/
+
+theorem css_none_ok (p : Nat) (suffix : Bytes) : CmdOk F G R ae buf (.css p none suffix) := by
+  intro fuel sc r env jenv jenv' out h hs hg hrel hb hx
+  have := rawText_ok F G R ae buf p suffix fuel sc r env jenv jenv' out (by simpa [toCmd] using h) hs hg hrel hb hx
+  simpa [refCmd] using this
+
+theorem css_some_ok (p : Nat) (e : Expr) (suffix : Bytes) : CmdOk F G R ae buf (.css p (some e) suffix) := by
+  intro fuel sc r env jenv jenv' out h hs hg hrel hb hx
+  simp only [toCmd] at h
+  split at h
+  · rename_i j hj
+    simp only [Option.some.injEq] at h; subst h
+    simp only [execStmts] at hx
+    obtain ⟨e1, hx1, hx2⟩ := sres_bind_ok hx
+    simp only [execStmt] at hx1
+    obtain ⟨jv, hjv, hx1⟩ := withVal_ok hx1
+    obtain ⟨v, hv, hvj⟩ := C04c.gen_correct_refs_partial sc env jenv hrel e j jv hj hjv
+    cases hs' : toStr? jv with
+    | none => simp [hs'] at hx1
+    | some s =>
+      simp only [hs'] at hx1
+      obtain ⟨s1, hs1, rfl⟩ := appendTo_ok hb hx1
+      simp only [toStr?, Option.some.injEq] at hs1; subst hs1
+      have k1 := keeps_setBuf buf sc.n jenv (.str (out ++ (s ++ [45])))
+      have hrel1 : EnvRel R.entry sc env (setLocal jenv buf (.str (out ++ (s ++ [45])))) :=
+        envRel_keep hrel k1 hs.2 (Nat.le_refl _) hg.2 rfl
+      obtain ⟨t2, env2, ht2, hrel2, hb2, hk2⟩ := rawText_ok F G R ae buf p suffix fuel sc (.one (.appendLit buf suffix), sc) env _ jenv'
+        (out ++ (s ++ [45])) (by simp [toCmd]) hs hg hrel1 (bufIs_setBuf _ _ _) hx2
+      simp only [refCmd, Out.val.injEq, Prod.mk.injEq] at ht2
+      obtain ⟨rfl, rfl⟩ := ht2
+      refine ⟨s ++ [45] ++ suffix, env, ?_, hrel2, by simpa [List.append_assoc] using hb2, k1.trans hk2 (Nat.le_refl _)⟩
+      simp [refCmd, hv, C04c.showVal_toStr v jv s hvj hs', Spec.Eval.Out.bind]
+  · cases h
+
+theorem debugger_ok (p : Nat) : CmdOk F G R ae buf (.debugger p) := by
+  intro fuel sc r env jenv jenv' out h hs hg hrel hb hx
+  simp only [toCmd, Option.some.injEq] at h; subst h
+  rw [execStmts_one] at hx
+  simp only [execStmt, SRes.ok.injEq] at hx; subst hx
+  exact ⟨[], env, by simp [refCmd], hrel, by simpa using hb, Keeps.refl _ _ _⟩
+
 /-! ### msg (no bundle) -/
 
 def PartsOk (ps : MsgParts) : Prop :=
@@ -3731,6 +4019,103 @@ theorem parts_text_ok (p : Nat) (t : Bytes) (rest : MsgParts) (ih2 : PartsOk F G
   simp only [refParts, refPh, Spec.Eval.Out.bind] at ht ⊢
   exact ht
 
+/-- the `{case n}` clauses of a plural: JavaScript matches no label exactly when the reference matches no case; the
+    clause JavaScript runs is the case the reference renders -/
+def PCasesOk (cs : PluralCases) : Prop :=
+  ∀ (fuel : Nat) (sc : Scope) (r : JsPlural × Scope) (env : SEnv) (jenv : JEnv) (out : Bytes) (i : Int),
+    toPCases ae buf cs sc = some r → ScOk sc → GoodBuf sc buf → EnvRel R.entry sc env jenv → BufIs buf jenv out →
+    (execPlural F G fuel r.1 i jenv = none → refPlural F R ae cs i env = none) ∧
+    (∀ jenv', execPlural F G fuel r.1 i jenv = some (.ok jenv') →
+      ∃ text env', refPlural F R ae cs i env = some (.val (text, env')) ∧ EnvRel R.entry r.2 env' jenv' ∧
+        BufIs buf jenv' (out ++ text) ∧ Keeps buf sc.n jenv jenv')
+
+theorem pcases_nil_ok : PCasesOk F G R ae buf .nil := by
+  intro fuel sc r env jenv out i h hs hg hrel hb
+  simp only [toPCases, Option.some.injEq] at h; subst h
+  exact ⟨fun _ => by simp [refPlural], fun jenv' hx => by simp [execPlural] at hx⟩
+
+theorem pcases_cons_ok (p : Nat) (v : Int) (bp : Nat) (body : MsgParts) (rest : PluralCases) (ih1 : PartsOk F G R ae buf body)
+    (ih2 : PCasesOk F G R ae buf rest) : PCasesOk F G R ae buf (.cons p v bp body rest) := by
+  intro fuel sc r env jenv out i h hs hg hrel hb
+  unfold toPCases at h
+  obtain ⟨rb, rr, hrb, hst, hrr, rfl⟩ := pcaseJoin_some h
+  obtain ⟨a1, _, a3⟩ := toParts_scope ae body buf sc rb hrb hs
+  obtain ⟨b1, b2, b3⟩ := toPCases_scope ae rest buf rb.2 rr hrr a1
+  have hg1 : GoodBuf rb.2 buf := goodBuf_of_stack hg hst a3
+  have hrel1 : EnvRel R.entry rb.2 env jenv := envRel_stack hrel hst
+  obtain ⟨t1, t2⟩ := ih2 fuel rb.2 rr env jenv out i hrr a1 hg1 hrel1 hb
+  simp only [execPlural, refPlural]
+  by_cases hex : SoyVerif.Spec.JsSem.exact v = true
+  · simp only [hex, if_true]
+    by_cases hiv : (i == v) = true
+    · simp only [hiv, if_true]
+      refine ⟨fun hx => by simp at hx, ?_⟩
+      intro jenv' hx
+      simp only [Option.some.injEq] at hx
+      obtain ⟨text, env', ht, hrel', hb', hk⟩ := ih1 fuel sc rb env jenv jenv' out hrb hs hg hrel hb hx
+      exact ⟨text, env', by rw [ht], envRel_stack hrel' (b2), hb', hk⟩
+    · simp only [hiv, Bool.false_eq_true, if_false]
+      refine ⟨t1, ?_⟩
+      intro jenv' hx
+      obtain ⟨text, env', ht, hrel', hb', hk⟩ := t2 jenv' hx
+      exact ⟨text, env', ht, hrel', hb', hk.mono a3⟩
+  · simp only [hex, Bool.false_eq_true, if_false]
+    exact ⟨fun hx => by simp at hx, fun jenv' hx => by simp at hx⟩
+
+theorem toJsV_int {v : Spec.Eval.Val} {i : Int} (h : toJsV v = some (.num i)) : v = .int i := by
+  cases v <;> simp [C04c.toJsV] at h
+  exact congrArg Spec.Eval.Val.int h.2
+
+theorem parts_plural_ok (p : Nat) (vn : Bytes) (value : Expr) (cases : PluralCases) (dp : Nat) (dflt rest : MsgParts)
+    (ihc : PCasesOk F G R ae buf cases) (ihd : PartsOk F G R ae buf dflt) (ihr : PartsOk F G R ae buf rest) :
+    PartsOk F G R ae buf (.plural p vn value cases dp dflt rest) := by
+  intro fuel sc r env jenv jenv' out h hs hg hrel hb hx
+  unfold toParts at h
+  obtain ⟨j, rc, rd, rr, hj, hrc, hrd, hstd, hrr, rfl⟩ := pluralJoin_some h
+  obtain ⟨c1, c2, c3⟩ := toPCases_scope ae cases buf sc rc hrc hs
+  obtain ⟨d1, _, d3⟩ := toParts_scope ae dflt buf rc.2 rd hrd c1
+  have hgc : GoodBuf rc.2 buf := goodBuf_of_stack hg c2 c3
+  have hgd : GoodBuf rd.2 buf := goodBuf_of_stack hg hstd (Nat.le_trans c3 d3)
+  simp only [execStmts] at hx
+  obtain ⟨e1, hx1, hx2⟩ := sres_bind_ok hx
+  simp only [execStmt] at hx1
+  obtain ⟨jv, hjv, hx1⟩ := withVal_ok hx1
+  obtain ⟨vv, hvv, hvj⟩ := C04c.gen_correct_refs_partial sc env jenv hrel value j jv hj hjv
+  cases jv with
+  | num i =>
+    have := toJsV_int hvj
+    subst this
+    simp only at hx1
+    obtain ⟨t1, t2⟩ := ihc fuel sc rc env jenv out i hrc hs hg hrel hb
+    -- the clause that ran
+    have hbranch : ∃ text env', (match refPlural F R ae cases i env with
+          | some r => r
+          | none => refParts F R ae dflt env) = .val (text, env') ∧ EnvRel R.entry rd.2 env' e1 ∧ BufIs buf e1 (out ++ text) ∧
+        Keeps buf sc.n jenv e1 := by
+      cases hp : execPlural F G fuel rc.1 i jenv with
+      | some res =>
+        rw [hp] at hx1
+        simp only at hx1
+        subst hx1
+        obtain ⟨text, env', ht, hrel', hb', hk⟩ := t2 e1 hp
+        exact ⟨text, env', by rw [ht], envRel_stack hrel' (hstd.trans c2.symm), hb', hk⟩
+      | none =>
+        rw [hp] at hx1
+        simp only at hx1
+        have hn := t1 hp
+        obtain ⟨text, env', ht, hrel', hb', hk⟩ := ihd fuel rc.2 rd env jenv e1 out hrd c1 hgc (envRel_stack hrel c2) hb hx1
+        exact ⟨text, env', by rw [hn]; exact ht, hrel', hb', hk.mono c3⟩
+    obtain ⟨text1, env1, ht1, hrel1, hb1, hk1⟩ := hbranch
+    obtain ⟨text2, env2, ht2, hrel2, hb2, hk2⟩ := ihr fuel rd.2 rr env1 e1 jenv' (out ++ text1) hrr d1 hgd hrel1 hb1 hx2
+    refine ⟨text1 ++ text2, env2, ?_, hrel2, by rw [← List.append_assoc]; exact hb2, hk1.trans hk2 (Nat.le_trans c3 d3)⟩
+    simp only [refParts, hvv, Spec.Eval.Out.bind, ht1, ht2]
+  | undefined => cases hx1
+  | null => cases hx1
+  | bool _ => cases hx1
+  | str _ => cases hx1
+  | arr _ => cases hx1
+  | obj _ => cases hx1
+
 theorem msg_ok (p id : Nat) (m d : Bytes) (bp : Nat) (body : MsgParts) (ih : PartsOk F G R ae buf body) :
     CmdOk F G R ae buf (.msg p id m d bp body) := by
   intro fuel sc r env jenv jenv' out h hs hg hrel hb hx
@@ -3785,7 +4170,7 @@ theorem letContent_ok (p : Nat) (name : Bytes) (body : Block) (ih : ∀ buf', Bl
   have hloop : LoopRel (rbv.2.bind name (sc.genname name).1) (env.bind name (.str text)) jenv' := by
     have h1 : LoopRel rbv.2 env jenv' := loopRel_keep hrel.2.1 hkeep hs.2 (Nat.le_refl _) hg.2 a1
     exact loopRel_setTop h1 name _ hname _ (fun _ _ _ _ => rfl) rfl
-  refine ⟨?_, hloop, by rw [hkeep.1]; exact hrel.2.2⟩
+  refine ⟨?_, hloop, by rw [hkeep.1]; exact hrel.2.2.1, by rw [hkeep.2.1]; exact hrel.2.2.2.1, hrel.2.2.2.2⟩
   cases hstk : rbv.2.stack with
   | nil => rw [a1] at hstk; exact absurd hstk hst
   | cons f st =>
@@ -3867,8 +4252,8 @@ theorem toJsKvs_append : ∀ (a b : List (Bytes × Val)) (ja jb : List (Bytes ×
     JSON image of the data `ce.entry`, `name` is a template of the registry, it renders on that data, and `r` is
     the text -/
 def CallRel : Prop :=
-  ∀ (name : Bytes) (ce : Spec.Eval.CallEnv) (jd : List (Bytes × JVal)) (r : JVal),
-    C04c.toJsKvs ce.entry = some jd → G name (.obj jd) = .val r →
+  ∀ (name : Bytes) (ce : Spec.Eval.CallEnv) (jd : List (Bytes × JVal)) (jij : Option (List (Bytes × JVal))) (r : JVal),
+    C04c.toJsKvs ce.entry = some jd → IjRel ce.ij jij → GlobRel ce.globals → G name (.obj jd) jij = .val r →
     ∃ callee out, Registry.lookup R.reg name = some callee ∧ R.call callee ce = .val out ∧ r = .str out
 
 /-- the params of a call: when the statements that fill the content params' buffers complete, only new locals
@@ -3993,7 +4378,7 @@ theorem base_ok {sc : Scope} {env : SEnv} {jenv : JEnv} (hrel : EnvRel R.entry s
     exact ⟨kvs, by simp [refBase, hv, Spec.Eval.Out.bind], hk⟩
   · subst hbase
     simp only [evalBase, JOut.val.injEq, JVal.obj.injEq] at hbv; subst hbv
-    exact ⟨R.entry, by simp [refBase], hrel.2.2⟩
+    exact ⟨R.entry, by simp [refBase], hrel.2.2.1⟩
 
 theorem call_ok (hG : CallRel G R) (p : Nat) (name : Bytes) (allData : Bool) (data : Option Expr) (params : ParamList)
     (ihp : ParamsOk F G R ae params) : CmdOk F G R ae buf (.call p name allData data params) := by
@@ -4020,8 +4405,8 @@ theorem call_ok (hG : CallRel G R) (p : Nat) (name : Bytes) (allData : Bool) (da
       obtain ⟨bs, jbs, hr, hjb, he⟩ := hpp jenvF [] extra (KeepsAll.refl _ _) hep
       simp only [List.append_nil] at he; subst he
       obtain ⟨bd, hbd, hbj⟩ := base_ok R hrelF hbase hbv
-      obtain ⟨callee, outc, hlk, hc, rfl⟩ := hG name ⟨bs ++ bd, env.ij, env.globals⟩ (extra ++ bkvs) rv
-        (toJsKvs_append _ _ _ _ hjb hbj) hrv
+      obtain ⟨callee, outc, hlk, hc, rfl⟩ := hG name ⟨bs ++ bd, env.ij, env.globals⟩ (extra ++ bkvs) jenvF.ijData rv
+        (toJsKvs_append _ _ _ _ hjb hbj) hrelF.2.2.2.1 hrelF.2.2.2.2 hrv
       obtain ⟨s, hs', rfl⟩ := appendTo_ok hbF hx
       simp only [toStr?, Option.some.injEq] at hs'; subst hs'
       have hkeep : Keeps buf sc.n jenv (setLocal jenvF buf (.str (out ++ outc))) :=
@@ -4045,8 +4430,9 @@ mutual
     | .letValue p x e, buf => letValue_ok F G R ae buf p x e
     | .ifc p conds, buf => ifc_ok F G R ae buf p conds (conds_ok conds buf)
     | .msg p id m d bp body, buf => msg_ok F G R ae buf p id m d bp body (parts_ok body buf)
-    | .css .., _ => fun _ _ _ _ _ _ _ h => by simp [toCmd] at h
-    | .debugger .., _ => fun _ _ _ _ _ _ _ h => by simp [toCmd] at h
+    | .css p none suffix, buf => css_none_ok F G R ae buf p suffix
+    | .css p (some e) suffix, buf => css_some_ok F G R ae buf p e suffix
+    | .debugger p, buf => debugger_ok F G R ae buf p
     | .log .., _ => fun _ _ _ _ _ _ _ h => by simp [toCmd] at h
     | .forc p v list body none, buf => forc_none_ok F G R ae buf p v list body (body_ok' body buf)
     | .forc p v list body (some ie), buf => forc_some_ok F G R ae buf p v list body ie (body_ok' body buf) (block_ok' ie buf)
@@ -4061,7 +4447,11 @@ mutual
     | .nil, buf => parts_nil_ok F G R ae buf
     | .text p t rest, buf => parts_text_ok F G R ae buf p t rest (parts_ok rest buf)
     | .ph p name body rest, buf => parts_ph_ok F G R ae buf p name body rest (ph_ok body buf) (parts_ok rest buf)
-    | .plural .., _ => fun _ _ _ _ _ _ _ h => by simp [toParts] at h
+    | .plural p vn value cases dp dflt rest, buf =>
+      parts_plural_ok F G R ae buf p vn value cases dp dflt rest (pcases_ok cases buf) (parts_ok dflt buf) (parts_ok rest buf)
+  theorem pcases_ok : ∀ (cs : PluralCases) (buf : Bytes), PCasesOk F G R ae buf cs
+    | .nil, buf => pcases_nil_ok F G R ae buf
+    | .cons p v bp body rest, buf => pcases_cons_ok F G R ae buf p v bp body rest (parts_ok body buf) (pcases_ok rest buf)
   theorem ph_ok : ∀ (b : MsgPhBody) (buf : Bytes), PhOk F G R ae buf b
     | .htmlTag p t, buf => ph_tag_ok F G R ae buf p t
     | .cmd c, buf => ph_cmd_ok F G R ae buf c (cmd_ok c buf)
@@ -4090,7 +4480,7 @@ end
 /-! ## the theorem -/
 
 section
-variable (F : Bytes → List Expr → JVal → JOut) (G : Bytes → JVal → JOut) (R : RefCtx) (ae : Autoescape) (buf : Bytes)
+variable (F : Bytes → List Expr → JVal → JOut) (G : Callee) (R : RefCtx) (ae : Autoescape) (buf : Bytes)
 
 /-- PARTIAL (C04, command level).  For a list of commands of the fragment — raw text, `{print}` with
     directives, `{let $x: e /}`, `{if}/{elseif}/{else}`, `{foreach}` / `{ifempty}`, `{for … in range(…)}`, `{switch}`,
@@ -4102,7 +4492,8 @@ variable (F : Bytes → List Expr → JVal → JOut) (G : Bytes → JVal → JOu
         directive functions) from a JavaScript environment related to the Soy environment `env`, in
         which `buf` holds `out`, the specification renders the commands in `env` to a text, and `buf`
         then holds `out` followed by exactly this text. -/
-theorem gen_correct_cmds_partial (hG : CallRel G R) (sk : List Bytes → List Bytes) (o : Options) (ho : o.messages = none)
+theorem gen_correct_cmds_partial (hG : CallRel G R) (sk : List Bytes → List Bytes) (o : Options) [GlobalsAre o]
+    (ho : o.messages = none)
     (cmds : CmdList) (sc : Scope) (r : JsStmts × Scope) (h : toCmds ae buf cmds sc = some r) :
     (∀ ind, Runs (At ind buf ae sc) (At ind buf ae r.2) (walkCmds sk o cmds) (renderStmts (isEs6 o) ind r.1)) ∧
     (∀ (fuel : Nat) (env : SEnv) (jenv jenv' : JEnv) (out : Bytes), ScOk sc → GoodBuf sc buf → EnvRel R.entry sc env jenv → BufIs buf jenv out →
@@ -4118,6 +4509,7 @@ theorem gen_correct_cmds_partial (hG : CallRel G R) (sk : List Bytes → List By
 theorem gen_correct_body_partial (hG : CallRel G R) (body : CmdList) (n : Nat) (r : JsStmts × Scope)
     (h : toCmds ae b!"output" body ⟨[[]], n⟩ = some r) (env : SEnv) (optData : List (Bytes × JVal))
     (ij : Option (List (Bytes × JVal))) (hent : R.entry = env.vars) (hdata : C04c.toJsKvs env.vars = some optData)
+    (hij : IjRel env.ij ij) (hgl : GlobRel env.globals)
     (jenv' : JEnv) (fuel : Nat)
     (hx : execStmts F G fuel r.1 ⟨optData, ij, [(b!"output", .str [])]⟩ = .ok jenv') :
     ∃ text, refCmds F R ae body env = .val text ∧ BufIs b!"output" jenv' text := by
@@ -4129,7 +4521,7 @@ theorem gen_correct_body_partial (hG : CallRel G R) (body : CmdList) (n : Nat) (
     cases hkv
   have hrel : EnvRel R.entry ⟨[[]], n⟩ env ⟨optData, ij, [(b!"output", .str [])]⟩ := by
     rw [hent]
-    exact C04c.envRel_params _ env _ (fun k => by simp [Scope.lookup, Scope.lookupIn, frameGet?]) hdata
+    exact C04c.envRel_params _ env _ (fun k => by simp [Scope.lookup, Scope.lookupIn, frameGet?]) hdata hij hgl
   obtain ⟨text, ht, hb', _⟩ := cmds_ok F G R ae hG body b!"output" fuel _ r env _ jenv' [] h hs
     (goodBuf_plain n _ (by decide)) hrel (by simp [BufIs]) hx
   exact ⟨text, ht, by simpa using hb'⟩
@@ -4157,7 +4549,10 @@ mutual
     | .nil => true
     | .text _ _ rest => plainParts hb rest
     | .ph _ _ body rest => plainPh hb body && plainParts hb rest
-    | .plural .. => false
+    | .plural _ _ _ cases _ dflt rest => plainPCases hb cases && plainParts hb dflt && plainParts hb rest
+  def plainPCases (hb : Bool) : PluralCases → Bool
+    | .nil => true
+    | .cons _ _ _ body rest => plainParts hb body && plainPCases hb rest
   def plainPh (hb : Bool) : MsgPhBody → Bool
     | .htmlTag .. => true
     | .cmd c => plainCmd hb c
@@ -4208,7 +4603,7 @@ def EscapeHtmlIs (F : Bytes → List Expr → JVal → JOut) : Prop :=
     | none => .unspec
 
 section
-variable (F : Bytes → List Expr → JVal → JOut) (G : Bytes → JVal → JOut) (ae : Autoescape) (hesc : EscapeHtmlIs F)
+variable (F : Bytes → List Expr → JVal → JOut) (G : Callee) (ae : Autoescape) (hesc : EscapeHtmlIs F)
 variable (reg : Registry.Reg) (hasBundle : Bool) (entry : Spec.Eval.Binds)
 variable (call call' : Registry.Tmpl → Spec.Eval.CallEnv → Out Bytes)
 -- the reference's `call` and the specification's: the latter renders what the former does
@@ -4282,8 +4677,15 @@ mutual
       simp only [hp.1] at e
       rw [e]
       exact h
-    | .css .., _, _, _, h => by simp [refCmd] at h
-    | .debugger .., _, _, _, h => by simp [refCmd] at h
+    | .css p none suffix, env, r, _, h => by
+      rw [Spec.Eval.renderCmd]
+      simpa [refCmd] using h
+    | .css p (some e) suffix, env, r, _, h => by
+      rw [Spec.Eval.renderCmd]
+      simpa [refCmd] using h
+    | .debugger p, env, r, _, h => by
+      rw [Spec.Eval.renderCmd]
+      simpa [refCmd] using h
     | .log .., _, _, _, h => by simp [refCmd] at h
     | .forc p v list body none, env, r, hp, h => by
       rw [Spec.Eval.renderCmd]
@@ -4433,7 +4835,65 @@ mutual
       simp only [Spec.Eval.Out.bind]
       rw [ref_le_spec_parts rest r1.2 r2 hp.2 h2]
       exact h
-    | .plural .., _, _, hp, _ => by simp [plainParts] at hp
+    | .plural p vn value cases dp dflt rest, env, r, hp, h => by
+      simp only [plainParts, Bool.and_eq_true] at hp
+      rw [Spec.Eval.renderParts]
+      simp only [refParts] at h
+      obtain ⟨v, hv, h⟩ := out_bind_val h
+      rw [hv]
+      simp only [Spec.Eval.Out.bind]
+      cases v <;> simp only [reduceCtorEq] at h
+      rename_i i
+      obtain ⟨r1, h1, h⟩ := out_bind_val h
+      obtain ⟨r2, h2, h⟩ := out_bind_val h
+      have hsp : Spec.Eval.renderPlural reg hasBundle (ae != .off) entry call' none cases
+          (Spec.Eval.renderParts reg hasBundle (ae != .off) entry call' none dflt) i env = .val r1 := by
+        obtain ⟨q1, q2⟩ := ref_le_spec_plural cases i env hp.1.1
+        cases hrp : refPlural F ⟨reg, entry, call⟩ ae cases i env with
+        | some rr =>
+          rw [hrp] at h1
+          simp only at h1
+          subst h1
+          exact q1 r1 hrp _
+        | none =>
+          rw [hrp] at h1
+          simp only at h1
+          rw [q2 hrp]
+          exact ref_le_spec_parts dflt env r1 hp.1.2 h1
+      dsimp only
+      rw [hsp]
+      dsimp only
+      rw [ref_le_spec_parts rest r1.2 r2 hp.2 h2]
+      exact h
+  theorem ref_le_spec_plural : ∀ (cs : PluralCases) (i : Int) (env : SEnv), plainPCases hasBundle cs = true →
+      (∀ r, refPlural F ⟨reg, entry, call⟩ ae cs i env = some (.val r) →
+        ∀ dfltF, Spec.Eval.renderPlural reg hasBundle (ae != .off) entry call' none cs dfltF i env = .val r) ∧
+      (refPlural F ⟨reg, entry, call⟩ ae cs i env = none →
+        ∀ dfltF, Spec.Eval.renderPlural reg hasBundle (ae != .off) entry call' none cs dfltF i env = dfltF env)
+    | .nil, i, env, _ => by
+      refine ⟨fun r h => by simp [refPlural] at h, fun _ dfltF => ?_⟩
+      rw [Spec.Eval.renderPlural]
+    | .cons p v bp body rest, i, env, hp => by
+      simp only [plainPCases, Bool.and_eq_true] at hp
+      obtain ⟨q1, q2⟩ := ref_le_spec_plural rest i env hp.2
+      refine ⟨fun r h dfltF => ?_, fun h dfltF => ?_⟩
+      · rw [Spec.Eval.renderPlural]
+        simp only [refPlural] at h
+        split at h
+        · rename_i hiv
+          simp only [hiv, if_true]
+          simp only [Option.some.injEq] at h
+          exact ref_le_spec_parts body env r hp.1 h
+        · rename_i hiv
+          simp only [hiv, Bool.false_eq_true, if_false]
+          exact q1 r h dfltF
+      · rw [Spec.Eval.renderPlural]
+        simp only [refPlural] at h
+        split at h
+        · cases h
+        · rename_i hiv
+          simp only [hiv, Bool.false_eq_true, if_false]
+          exact q2 h dfltF
   theorem ref_le_spec_ph : ∀ (b : MsgPhBody) (env : SEnv) (r : Bytes × SEnv), plainPh hasBundle b = true →
       refPh F ⟨reg, entry, call⟩ ae b env = .val r →
       Spec.Eval.renderPh reg hasBundle (ae != .off) entry call' none b env = .val r
@@ -4556,7 +5016,7 @@ end
 end
 
 section
-variable (F : Bytes → List Expr → JVal → JOut) (G : Bytes → JVal → JOut) (R : RefCtx) (ae : Autoescape)
+variable (F : Bytes → List Expr → JVal → JOut) (G : Callee) (R : RefCtx) (ae : Autoescape)
 
 /-- against Spec/Eval.renderCmds itself: directive-free prints, soy.$$escapeHtml read as htmlEscape -/
 theorem gen_correct_cmds_spec (hesc : EscapeHtmlIs F) (buf : Bytes)
@@ -4573,7 +5033,23 @@ theorem gen_correct_cmds_spec (hesc : EscapeHtmlIs F) (buf : Bytes)
 
 end
 
+end Dev
+
 /-! ## non-vacuity -/
+
+section Examples
+open SoyVerif.Spec.Eval (Val Out)
+
+/-- the examples are without globals (those with: the last ones) -/
+def exGlobals : Globals := ⟨[]⟩
+local instance : Globals := exGlobals
+local instance : GlobalsAre ({} : Options) := ⟨rfl⟩
+
+theorem exGlobRel (gs : Spec.Eval.Binds) : GlobRel gs := fun _ _ _ h => by
+  have : (Globals.tbl : List (Bytes × Value)) = [] := rfl
+  rw [this] at h
+  simp [assocGet?] at h
+
 
 /-- `{let $x: $a + 1 /}{if $x > 2}big {let $x: '<' /}{$x}{else}small{/if}{$x |truncate:3}` -/
 def sampleCmds : CmdList :=
@@ -4592,12 +5068,12 @@ def sampleF (name : Bytes) (_ : List Expr) (jv : JVal) : JOut :=
   | none => .unspec
 
 /-- no other template to call -/
-def noCall (_ : Bytes) (_ : JVal) : JOut := .unspec
+def noCall : Callee := fun _ _ _ => .unspec
 /-- a reference context without templates, for the entry data `e` -/
 def noRefOn (e : Spec.Eval.Binds) : RefCtx := ⟨[], e, fun _ _ => .unspec⟩
 def noRef : RefCtx := noRefOn []
 
-theorem noCall_rel (R : RefCtx) : CallRel noCall R := fun _ _ _ _ _ h => by simp [noCall] at h
+theorem noCall_rel (R : RefCtx) : CallRel noCall R := fun _ _ _ _ _ _ _ _ h => by simp [noCall] at h
 
 theorem sampleF_escape : EscapeHtmlIs sampleF := by
   intro jv
@@ -4635,7 +5111,7 @@ example (a : Int) (ha : SoyVerif.Spec.JsSem.exact a = true) (jenv' : JEnv) (r : 
     ∃ text, refCmds sampleF (noRefOn (sampleEnv a).vars) .on sampleCmds (sampleEnv a) = .val text ∧
       BufIs b!"output" jenv' text :=
   gen_correct_body_partial sampleF noCall (noRefOn (sampleEnv a).vars) .on (noCall_rel _) sampleCmds 0 r h (sampleEnv a) _ none rfl
-    (by simp [sampleEnv, C04c.toJsKvs, C04c.toJsV, ha]) jenv' 10 hx
+    (by simp [sampleEnv, C04c.toJsKvs, C04c.toJsV, ha]) rfl (exGlobRel _) jenv' 10 hx
 
 /-- … and these statements are what the generator model writes: from a state inside a template
     function (indentation 1, buffer `output`, autoescaping on, a fresh frame) -/
@@ -4807,7 +5283,7 @@ example : (toCmds .on b!"output" sampleCall ⟨[[]], 0⟩).map (fun r => printPi
     b!"  output += '[';\n  var param$1 = '';\n  param$1 += '\\u003C';\n  param$1 += soy.$$escapeHtml(opt_data.a);\n  param$1 += '\\u003E';\n  output += sem.c(soy.$$augmentMap(opt_data, {p: ((opt_data.a) + (1)), c: param$1}), opt_sb, opt_ijData);\n  output += ']';\n" := rfl
 
 /-- a callee oracle: the function `sem.c` returns `p:c:a` of its data object (`{$p}:{$c|noAutoescape}:{$a}`) -/
-def sampleG (name : Bytes) (d : JVal) : JOut :=
+def sampleG : Callee := fun name d _ =>
   if name == b!"sem.c" then
     match d with
     | .obj jd =>
@@ -4842,7 +5318,7 @@ theorem find_of_getD {b : Spec.Eval.Binds} {k : Bytes} {v : Val} (h : (Spec.Eval
 
 /-- the oracle pair satisfies the hypothesis of the call theorems -/
 theorem sampleG_rel (entry : Spec.Eval.Binds) : CallRel sampleG (sampleR entry) := by
-  intro name ce jd r hj hg
+  intro name ce jd jij r hj _ _ hg
   unfold sampleG at hg
   split at hg
   · rename_i hn
@@ -4881,7 +5357,7 @@ example (a : Int) (jenv' : JEnv) (r : JsStmts × Scope) (h : toCmds .on b!"outpu
     ∃ text, refCmds sampleF (sampleR (sampleEnv a).vars) .on sampleCall (sampleEnv a) = .val text ∧
       BufIs b!"output" jenv' text :=
   gen_correct_body_partial sampleF sampleG (sampleR (sampleEnv a).vars) .on (sampleG_rel _) sampleCall 0 r h (sampleEnv a) _ none rfl
-    (by simp [sampleEnv, C04c.toJsKvs, C04c.toJsV, ha]) jenv' 10 hx
+    (by simp [sampleEnv, C04c.toJsKvs, C04c.toJsV, ha]) rfl (exGlobRel _) jenv' 10 hx
 
 /-- the semantics of the call has teeth: were the params laid UNDER the data (`augmentMap` the other way round), a
     param could not override a key of `data="all"` -/
@@ -4913,6 +5389,72 @@ example : refCmds sampleF noRef .on sampleMsg (sampleEnv 5) = .val b!"Hi <b>5</b
 -- … and Spec/Eval.renderCmds (no bundle) renders the same
 example : Spec.Eval.renderCmds [] false true [] (fun _ _ => .unspec) none sampleMsg (sampleEnv 5) = .val b!"Hi <b>5</b>, 6!" := rfl
 
+/-- `{msg desc="d"}{plural $a}{case 1}one{case 5}five {$a}{default}many{/plural}!{/msg}` -/
+def samplePlural : CmdList :=
+  .cons (.msg 0 7 [] b!"d" 0
+    (.plural 0 b!"A" (.dataRef 0 b!"a" .nil)
+      (.cons 0 1 0 (.text 0 b!"one" .nil) (.cons 0 5 0 (.text 0 b!"five " (.ph 0 b!"A" (.cmd (.print 0 (.dataRef 0 b!"a" .nil) [])) .nil)) .nil))
+      0 (.text 0 b!"many" .nil) (.text 0 b!"!" .nil))) .nil
+
+set_option maxRecDepth 8000 in
+example : (toCmds .off b!"output" samplePlural ⟨[[]], 0⟩).map (fun r => printPieces (renderStmts false 1 r.1)) = some
+    b!"  switch (opt_data.a) {\n    case 1:\n      output += 'one';\n      break;\n    case 5:\n      output += 'five ';\n      output += opt_data.a;\n      break;\n    default:\n      output += 'many';\n  }\n  output += '!';\n" := by
+  decide +kernel
+
+def pluralRun (a : JVal) : Option SRes :=
+  (toCmds .off b!"output" samplePlural ⟨[[]], 0⟩).map fun r =>
+    execStmts sampleF noCall 10 r.1 ⟨[(b!"a", a)], none, [(b!"output", .str [])]⟩
+
+example : (pluralRun (.num 5)).map (fun r => match r with
+    | .ok e => (e.locals.find? (·.1 == b!"output")).map (·.2)
+    | _ => none) = some (some (.str b!"five 5!")) := rfl
+example : (pluralRun (.num 2)).map (fun r => match r with
+    | .ok e => (e.locals.find? (·.1 == b!"output")).map (·.2)
+    | _ => none) = some (some (.str b!"many!")) := rfl
+example : refCmds sampleF noRef .off samplePlural (sampleEnv 5) = .val b!"five 5!" := rfl
+example : refCmds sampleF noRef .off samplePlural (sampleEnv 2) = .val b!"many!" := rfl
+-- a plural over a string: Soy (Tofu, Spec/Eval) stops with an error, JavaScript takes the default clause — the
+-- semantics is SILENT there (`unspec`)
+example : (pluralRun (.str b!"5")).map (fun r => match r with | .unspec => true | _ => false) = some true := rfl
+example : refCmds sampleF noRef .off samplePlural { vars := [(b!"a", .str b!"5")], loops := [], ij := none, globals := [] } = .error := rfl
+
+end Examples
+
+section ExamplesGlobals
+open SoyVerif.Spec.Eval (Val Out)
+
+/-- one compile-time global: `G_I` = 42 -/
+local instance : Globals := ⟨[(b!"G_I", .int 42)]⟩
+
+/-- `{$ij.a + G_I}|{$ij.q?.z}` -/
+def sampleIj : CmdList :=
+  .cons (.print 0 (.bin .add 0 (.dataRef 0 b!"ij" (.cons (.key 0 false b!"a") .nil)) (.global 0 b!"G_I")) [])
+  (.cons (.rawText 0 b!"|")
+  (.cons (.print 0 (.dataRef 0 b!"ij" (.cons (.key 0 false b!"q") (.cons (.key 0 true b!"z") .nil))) []) .nil))
+
+-- the global is the literal the generator writes; `$ij` is the third parameter
+example : (toCmds .off b!"output" sampleIj ⟨[[]], 0⟩).map (fun r => printPieces (renderStmts false 1 r.1)) = some
+    b!"  output += ((opt_ijData.a) + (42));\n  output += '|';\n  output += ((opt_ijData.q == null) ? null : opt_ijData.q.z);\n" := by
+  decide +kernel
+
+example : (match walkCmds id { globals := [(b!"G_I", .int 42)] } sampleIj
+      { indent := 1, bufferName := b!"output", autoescape := .off, scope := ⟨[[]], 0⟩ } with
+    | .ok (_, ps, _) => some (printPieces ps)
+    | .error _ => none) = (toCmds .off b!"output" sampleIj ⟨[[]], 0⟩).map (fun r => printPieces (renderStmts false 1 r.1)) := by
+  decide +kernel
+
+example : (match toCmds .off b!"output" sampleIj ⟨[[]], 0⟩ with
+    | some r => (match execStmts sampleF noCall 10 r.1 ⟨[], some [(b!"a", .num 1), (b!"q", .obj [(b!"z", .num 9)])], [(b!"output", .str [])]⟩ with
+      | .ok e => (e.locals.find? (·.1 == b!"output")).map (·.2)
+      | _ => none)
+    | none => none) = some (.str b!"43|9") := rfl
+
+example : refCmds sampleF noRef .off sampleIj
+    { vars := [], loops := [], ij := some [(b!"a", .int 1), (b!"q", .map [(b!"z", .int 9)])], globals := [(b!"G_I", .int 42)] } =
+    .val b!"43|9" := rfl
+
+end ExamplesGlobals
+
 /-! ## what is proved, and what remains outside
 
   PROVED, for command lists built from raw text, `{print e |d…}` (directive arguments literal, every
@@ -4924,8 +5466,11 @@ example : Spec.Eval.renderCmds [] false true [] (fun _ _ => .unspec) none sample
   are outside the subset), `{let $x}…{/let}` (`var x$n = ''; x$n += …;` — the body is translated with the
   new buffer; `GoodBuf`: the buffer in use is no local the scope hands out and no name still to be
   generated), `{call name}` / `{call name data="all"}` / `{call name data="$e"}` with `{param k: e /}` and
-  `{param k}…{/param}` (see CALLS below), `{msg}` without a bundle and without `{plural}` (`toParts`: its text, HTML-tag
-  and print / call placeholder parts in order, in a frame of their own; against Spec/Eval.renderParts with `hasBundle = false`:
+  `{param k}…{/param}` (see CALLS below), `{css name}` / `{css e, name}` (`buf += e + '-';` then the name, unescaped — Spec/JsStmt
+  `.appendCss`), `{debugger}` (`debugger;`: nothing), `{msg}` without a bundle (`toParts`: its text, HTML-tag
+  and print / call placeholder parts in order, in a frame of their own; a `{plural}` part is `switch (e) { case n: … break; …
+  default: … }` — Spec/JsStmt `.pluralS`, a NUMBER against the integer labels; over a value that is no number Soy stops with
+  an error while JavaScript takes the default clause: the semantics is `unspec` there, a C04 discrepancy of the backends; against Spec/Eval.renderParts with `hasBundle = false`:
   `plainCmd hasBundle`) — nested at will — with `e` in the expression
   fragment of Props/C04c (literals, arithmetic / comparison / logic, `?:`, `?:`-elvis, variables and
   parameters with `.k` / `[i]` / `?.k` accesses, length / isNonnull / floor / ceiling / round / min /
@@ -4971,7 +5516,8 @@ example : Spec.Eval.renderCmds [] false true [] (fun _ _ => .unspec) none sample
 
   OUTSIDE (no theorem at the command level): `range` with a computed step, `{call}` to a `{deltemplate}` (`{delcall}`),
   the converse against Spec/Eval.render where the JavaScript THROWS (Props/C04f `gen_complete_registry_spec_partial`, hypothesis
-  `hthrow`), `{msg}` with a message bundle (translated parts) or with `{plural}`, `{css}`, `{log}`, `{debugger}`, `$ij`, globals, print directives with
+  `hthrow`), `{msg}` with a message bundle (translated parts), `{log}` (its scratch buffer `output_` is a plain name:
+  the `Keeps` / `Old` discipline — only the output variable and names generated LATER change — has no room for it), `$ij` in a function called without injected data, globals that are floats / lists / maps, print directives with
   non-literal arguments, and
   the file level above the functions (namespace declarations, goog.provide / ES6 imports — covered for SHAPE by C14, not for
   meaning; the functions themselves: Props/C04f). -/
